@@ -365,6 +365,107 @@ def heavy_case(args):
         return ("violation", n, v.what, p)
 
 
+# ------------------------------------------------------------------ a file larger than 4 GiB (holes)
+def bigfile_case(args):
+    """sparse host file of 4 GiB + delta with data at the start, across the 2^32 boundary and at the end; packed from a directory.
+    Nothing of that size is materialised: the image is checked block by block, `rdsquashfs -c` is compared as a stream."""
+    delta, B, comp, seed = args
+    import random, subprocess
+    rng = random.Random(seed * 31 + delta)
+    size = (1 << 32) + delta
+    islands = [(0, rng.randbytes(5000)), ((1 << 32) - 7, rng.randbytes(4096 + 14)), (3 * (1 << 30) + 12345, rng.randbytes(100))]
+    if delta > 10:
+        islands.append((size - 9, rng.randbytes(9)))
+
+    def model(off, n):
+        buf = bytearray(n)
+        for o, d in islands:
+            lo, hi = max(o, off), min(o + len(d), off + n)
+            if lo < hi:
+                buf[lo - off:hi - off] = d[lo - o:hi - o]
+        return bytes(buf)
+    what = "file of 2^32%+d bytes (-b %d -c %s)" % (delta, B, comp)
+    try:
+        with Scratch("c01big") as sc:
+            src = os.path.join(sc, "src")
+            os.mkdir(src)
+            fp = os.path.join(src, "big")
+            with open(fp, "wb") as fh:
+                fh.truncate(size)
+                for o, d in islands:
+                    fh.seek(o)
+                    fh.write(d[:max(0, size - o)])
+            with open(os.path.join(src, "small"), "wb") as fh:
+                fh.write(b"neighbour")
+            os.utime(fp, (1000, 1000))
+            out = os.path.join(sc, "out.sqfs")
+            r = vcommon.run([vcommon.tool("asan", "gensquashfs"), "--pack-dir", src, "-b", str(B), "-c", comp, "-q", "-j", "4", out], timeout=900)
+            if r.timeout:
+                return ("violation", delta, "gensquashfs does not finish on a " + what, None)
+            if r.sanitizer() or r.rc != 0:
+                return ("violation", delta, "gensquashfs on a %s: rc=%s %s %s" % (what, r.rc, r.sanitizer() or "", r.err[-200:].decode(errors="replace")), None)
+            img = sqfsimg.Image(open(out, "rb").read())
+            ino = img.paths.get(b"big")
+            if ino is None or ino.size != size:
+                return ("violation", delta, "%s stored with size %s" % (what, None if ino is None else ino.size), None)
+            # block by block against the model
+            pos, off = ino.blocks_start, 0
+            nb_data = 0
+            for w in ino.block_sizes:
+                want = min(B, size - off)
+                if w == 0:
+                    if any(model(off, want)):
+                        return ("violation", delta, "%s: block at offset %d is stored as a hole but holds data" % (what, off), None)
+                else:
+                    n = w & 0xFFFFFF
+                    raw = img.d[pos:pos + n]
+                    blk = raw if w & (1 << 24) else sqfsimg.decompress(img.comp, raw, B)
+                    if blk.ljust(want, b"\0") != model(off, want):
+                        return ("violation", delta, "%s: data block at offset %d differs" % (what, off), None)
+                    pos += n
+                    nb_data += 1
+                off += want
+            if ino.frag_idx != sqfsimg.NOFRAG:
+                fb = img.frag_block(ino.frag_idx)
+                tail = size - off
+                if fb[ino.frag_off:ino.frag_off + tail] != model(off, tail):
+                    return ("violation", delta, "%s: tail fragment differs" % what, None)
+                off += tail
+            if off != size:
+                return ("violation", delta, "%s: blocks and fragment cover %d bytes" % (what, off), None)
+            v = sqfsimg.validate(img, 4096)
+            if v:
+                return ("violation", delta, "%s: image violates %s" % (what, "; ".join(v[:2])), None)
+            # rdsquashfs -c as a stream
+            e = dict(os.environ)
+            e.update(vbuild.ASAN_ENV)
+            p = subprocess.Popen([vcommon.tool("asan", "rdsquashfs"), "-c", "/big", out], stdout=subprocess.PIPE, stderr=subprocess.PIPE, env=e)
+            got = 0
+            bad = None
+            zero = bytes(1 << 20)
+            while True:
+                chunk = p.stdout.read(1 << 20)
+                if not chunk:
+                    break
+                exp = model(got, len(chunk)) if any(o < got + len(chunk) and got < o + len(d) for o, d in islands) else (zero if len(chunk) == len(zero) else bytes(len(chunk)))
+                if bad is None and chunk != exp:
+                    bad = got
+                got += len(chunk)
+            p.wait()
+            err = p.stderr.read()
+            if p.returncode != 0 or b"Sanitizer" in err:
+                return ("violation", delta, "rdsquashfs -c on the %s: rc=%s %s" % (what, p.returncode, err[-300:].decode(errors="replace")), None)
+            if got != size or bad is not None:
+                return ("violation", delta, "rdsquashfs -c returns %d bytes for the %s%s" % (got, what, "" if bad is None else ", first difference near offset %d" % bad), None)
+            # stat
+            r = vcommon.run([vcommon.tool("asan", "rdsquashfs"), "-s", "/big", out], timeout=60)
+            if r.rc != 0 or (b"%d" % size) not in r.out:
+                return ("violation", delta, "rdsquashfs -s does not report %d bytes for the %s" % (size, what), None)
+            return ("ok", delta, ["bigfile_4g%+d" % delta, "bigfile_data_blocks_%d" % nb_data], "bigfile-%d-%d-%s" % (delta, B, comp))
+    except sqfsimg.FormatError as ex:
+        return ("violation", delta, "%s: image does not parse: %s" % (what, ex), None)
+
+
 def main(tier, seed, scale=1.0):
     vbuild.build("asan")
     n = int((480 if tier == "quick" else 8000) * scale)
@@ -374,6 +475,10 @@ def main(tier, seed, scale=1.0):
     heavy = [65535, 65536] if tier == "quick" else [65534, 65535, 65536, 65537]
     hp = mp.get_context("fork").Pool(2)
     hres = hp.map_async(heavy_case, [(h, seed) for h in heavy], chunksize=1)
+    bigs = [(1, 1 << 20, "gzip", seed)] if tier == "quick" else [(0, 1 << 20, "zstd", seed), (1, 1 << 20, "gzip", seed), (-1, 1 << 20, "lz4", seed),
+                                                                (5000, 131072, "gzip", seed), (123457, 1 << 20, "xz", seed)]
+    bp = mp.get_context("fork").Pool(1 if tier == "quick" else 2)
+    bres = bp.map_async(bigfile_case, bigs if scale >= 0.2 else [], chunksize=1)
     for d in vcommon.run_shards("c01", "check_case", "strat", n, seed, tier, {"prop": PROP}, shards=14):
         res.merge_shard(d)
     for r in hres.get():
@@ -386,10 +491,20 @@ def main(tier, seed, scale=1.0):
         else:
             res.violations.append(("%d distinct owner ids: %s" % (r[1], r[2]), r[3]))
     hp.close()
+    for r in bres.get():
+        if r[0] == "ok":
+            res.evaluations += 1
+            res.nontrivial.add(r[3])
+            for c in r[2]:
+                res.add_class(c)
+        else:
+            res.violations.append((r[2], vcommon.save_replay(PROP, dict(bigfile=True, delta=r[1], seed=seed), r[2])))
+    bp.close()
     res.rule = ("Hypothesis: random trees (all inode types, hostile names, content recipes around k*B, sparse, duplicates, shared "
                 "tails/leading blocks, hard links, xattrs) x option sets (compressor+extras, block size, -T -e -j -Q -B, --defaults, "
                 "--set-uid/gid, -k -x -H, xattr file) x input mode (pack-dir, pack-file, glob) plus directed profiles (256/512-entry "
-                "directories, metadata block crossings, k*512 xattr sets, 65535/65536 owner ids, unrepresentable inputs); non-trivial = "
+                "directories, metadata block crossings, k*512 xattr sets, 65535/65536 owner ids, a file of 2^32+delta bytes made of holes with data "
+                "islands at the start, across 2^32 and at the end, unrepresentable inputs); non-trivial = "
                 ">=3 nodes and >=1 non-empty regular file, or a profile; distinct by sha256 of the case; oracle = independent parser vs "
                 "reference model, then rdsquashfs unpack/cat/stat/list/describe/xattr read-back")
     res.assumptions = ["reference model of DESIGN Appendix A (from gensquashfs.1)", "independent parser lib/sqfsimg.py (from doc/format.adoc)",
@@ -400,4 +515,12 @@ def main(tier, seed, scale=1.0):
 
 def replay(path):
     vbuild.build("asan")
+    c = vcommon.load_replay(path)["case"]
+    if isinstance(c, dict) and c.get("bigfile"):
+        res = Result(PROP)
+        r = bigfile_case((c["delta"], c.get("B", 1 << 20), c.get("comp", "gzip"), c.get("seed", 1)))
+        res.evaluations = 1
+        if r[0] != "ok":
+            res.violations.append((r[2], path))
+        return res
     return vcommon.replay_case(PROP, check_case, path)
